@@ -23,6 +23,8 @@ impl WalIndex {
     pub(super) fn new_in(paths: &WalPathManager, file_name: &str) -> std::io::Result<Self> {
         paths.ensure_root()?;
         let path = paths.index_path(file_name);
+        #[cfg(walrus_verif)]
+        let _ = crate::wal::verif::io_check(crate::wal::verif::IoKind::ReadFile, &path.to_string_lossy(), "", 0, 0);
         let store = path
             .exists()
             .then(|| fs::read(&path).ok())
@@ -76,8 +78,14 @@ impl WalIndex {
             )
         })?;
 
+        #[cfg(walrus_verif)]
+        crate::wal::verif::io_check_data(crate::wal::verif::IoKind::TmpWrite, &tmp_path, 0, &bytes)?;
         fs::write(&tmp_path, &bytes)?;
+        #[cfg(walrus_verif)]
+        crate::wal::verif::io_check(crate::wal::verif::IoKind::TmpFsync, &tmp_path, "", 0, 0)?;
         fs::File::open(&tmp_path)?.sync_all()?;
+        #[cfg(walrus_verif)]
+        crate::wal::verif::io_check(crate::wal::verif::IoKind::Rename, &tmp_path, &self.path, 0, 0)?;
         fs::rename(&tmp_path, &self.path)?;
         Ok(())
     }
